@@ -158,3 +158,48 @@ def splice(out, i, g, args, dest, target, unwind_to, t, p):
         out['blocks'].append({'cleanup': gb['cleanup'] or b['cleanup'], 'stmts': stmts + extra, 'term': term, 'inlined_from': p})
     b['term'] = {'k': 'goto', 'target': boff, 'line': t.get('line'), 'file': t.get('file'), 'inlined_call': p}
     out.setdefault('inlined', []).append(p)
+
+
+def inline_consts(raw, consts):
+    """`x = const P` where P is a new named constant of the crate whose initialiser is one call without operands
+    (`needs_drop::<U>()`, `size_of::<T>()`) or one constant: the read is replaced by the initialiser.  Only for reads
+    with the identity substitution (P's own generic parameters), where the initialiser's text means the same thing."""
+    todo = []
+    for i, b in enumerate(raw['blocks']):
+        for j, st in enumerate(b['stmts']):
+            if st.get('k') != 'assign' or st['rv'].get('k') != 'use' or st['rv']['op'].get('k') != 'const':
+                continue
+            op = st['rv']['op']
+            g = consts.get(op.get('uneval'))
+            if g is None or g.get('arg_count'):
+                continue
+            ua = op.get('uneval_args') or []
+            if ua and ('<%s>' % ', '.join(ua)) not in g['path']:
+                continue
+            todo.append((i, j, g))
+    if not todo:
+        return raw
+    raw = copy.deepcopy(raw)
+    # later statements first, so that indices of the earlier ones stay valid
+    for i, j, g in sorted(todo, key=lambda x: (-x[0], -x[1])):
+        gb = g['blocks']
+        b = raw['blocks'][i]
+        st = b['stmts'][j]
+        if len(gb) == 2 and not gb[0]['stmts'] and gb[0]['term']['k'] == 'call' and not gb[0]['term']['args'] \
+                and gb[0]['term']['dest'] == {'l': 0, 'p': [], 'ty': gb[0]['term']['dest'].get('ty')} and gb[0]['term'].get('target') == 1 \
+                and gb[1]['term']['k'] == 'return' and not gb[1]['stmts']:
+            rest = {'cleanup': b['cleanup'], 'stmts': b['stmts'][j + 1:], 'term': b['term']}
+            raw['blocks'].append(rest)
+            t = copy.deepcopy(gb[0]['term'])
+            t['dest'] = copy.deepcopy(st['place'])
+            t['target'] = len(raw['blocks']) - 1
+            t['unwind'] = 'continue' if not b['cleanup'] else 'terminate'
+            t['line'] = st.get('line', t.get('line'))
+            t['file'] = raw.get('file')
+            t['syn'] = True
+            b['stmts'] = b['stmts'][:j]
+            b['term'] = t
+        elif len(gb) == 1 and len(gb[0]['stmts']) == 1 and gb[0]['stmts'][0].get('k') == 'assign' and gb[0]['stmts'][0]['place']['l'] == 0 \
+                and gb[0]['stmts'][0]['rv'].get('k') == 'use' and gb[0]['stmts'][0]['rv']['op'].get('k') == 'const' and gb[0]['term']['k'] == 'return':
+            st['rv'] = copy.deepcopy(gb[0]['stmts'][0]['rv'])
+    return raw
